@@ -91,6 +91,11 @@ theorem db_change_under_guard (s : S C R W D) (h : Inv1 s) (e : Event R W D) :
             · simp only [abort]; exact h2 _ _ he
       · left
         cases i <;> simp [Instr.isEff] at hi <;> simp only [exec] <;> (try split) <;> simp [abort]
+  | spur t u =>
+    left; simp only [next]
+    split
+    · split <;> simp [abort]
+    · rfl
 
 /-- T15.5c **no writer step while a session is live**: an event that changes the committed state (content,
 root, log, marker or poison flag) happens under the write guard, and then no session is live. -/
